@@ -1,7 +1,6 @@
 package sym
 
 import (
-	"fmt"
 	"go/types"
 	"strings"
 
@@ -52,7 +51,9 @@ func (e *Engine) closedNow(st *State, ch *smt.Term) *smt.Term {
 	rs := e.rd(st)
 	ts := []*smt.Term{c.Select(e.chClosed(rs), ch)}
 	for k := 1; k <= rs.Epoch; k++ {
-		ts = append(ts, c.Var(fmt.Sprintf("env$closed$%d$%d", k, ch.ID), smt.Bool))
+		// "some other goroutine closed ch during environment step k": an uninterpreted
+		// predicate of step and channel, so that equal channel terms share it
+		ts = append(ts, c.App("env$closed", smt.Bool, c.BVC(64, uint64(k)), ch))
 	}
 	return c.Or(ts...)
 }
